@@ -77,6 +77,15 @@ func findLoops(pk *packages.Package) []loopInfo {
 // isPop: `W = W[:len(W)-1]` or `W = W[1:]`.
 func isPop(st ast.Stmt, w string) bool {
 	as, ok := st.(*ast.AssignStmt)
+	if ok && len(as.Lhs) > 1 && len(as.Lhs) == len(as.Rhs) {
+		// `cur, W = W[0], W[1:]`: the component that assigns the worklist
+		for i := range as.Lhs {
+			if exprString(as.Lhs[i]) == w {
+				return isPop(&ast.AssignStmt{Lhs: []ast.Expr{as.Lhs[i]}, Tok: as.Tok, Rhs: []ast.Expr{as.Rhs[i]}}, w)
+			}
+		}
+		return false
+	}
 	if !ok || len(as.Lhs) != 1 || len(as.Rhs) != 1 || exprString(as.Lhs[0]) != w {
 		return false
 	}
@@ -605,6 +614,18 @@ func visitWithMarks(stmts []ast.Stmt, guards, outerMarks map[string]string, apps
 				}
 			}
 		case *ast.IfStmt:
+			// guard clause: `if S[k] { continue }` — what follows in this block runs under !S[k]
+			if ie, ok := asSetIndex(x.Cond); ok && x.Else == nil && len(x.Body.List) == 1 {
+				if br, isBr := x.Body.List[0].(*ast.BranchStmt); isBr && br.Tok == token.CONTINUE {
+					ng := map[string]string{}
+					for k, v := range guards {
+						ng[k] = v
+					}
+					ng[exprString(ie.X)] = exprString(ie.Index)
+					guards = ng
+					continue
+				}
+			}
 			g := map[string]string{}
 			for k, v := range guards {
 				g[k] = v
